@@ -24,7 +24,6 @@ SOFTWARE.
 Representation of the Einsum equation
 """
 from collections import Counter
-from itertools import chain
 
 from lark.lexer import Token
 from lark.tree import Tree
@@ -217,9 +216,8 @@ class Equation:
 
         Note: returns the output ranks first
         """
-        term_iter = chain(
-            self.equation.find_data("times"),
-            self.equation.find_data("take"))
+        # The terms in the order they are written
+        term_iter = iter(next(self.equation.find_data("plus")).children)
 
         # Get the ranks in a term of inputs
         term_ranks = Equation.__get_term_ranks(next(term_iter))
